@@ -483,7 +483,8 @@ def hSelectNodes (inp out : Json) : Except String Findings := do
   match d.strategy.canary with
   | none => return fs
   | some c =>
-    match selectNodes rs.template c d.status.desired current pods nodes with
+    let base := targetedCount rs.template nodes
+    match selectNodes rs.template c base current pods nodes with
     | .panic => return diff fs "kind" "ok" "panic"
     | .err _ => return diff fs "err(replicas)" err true
     | .ok (m, short) =>
@@ -493,7 +494,7 @@ def hSelectNodes (inp out : Json) : Except String Findings := do
       let fs := spec fs "C15.distinct" (Spec.C15.distinct current res)
       let fs := spec fs "C15.new-valid" (Spec.C15.newValid t c nodes current res)
       let fs := spec fs "C15.keep" (Spec.C15.keep t c nodes current res)
-      let fs := spec fs "C15.count" (Spec.C15.count c d.status.desired current res err)
+      let fs := spec fs "C15.count" (Spec.C15.count c base current res err)
       let fs := spec fs "C15.all-valid" (err || Spec.C15.allValid t c nodes res)
       return fs
 
@@ -664,9 +665,14 @@ def hEdsReconcile (inp out : Json) : Except String Findings := do
       let fs := match st.canary, d.strategy.canary with
         | some cs, some c =>
           let oldNodes := match d.status.canary with | some x => x.nodes | none => []
-          spec fs "C04.list-growth" (match resolveIntOrPercent c.replicas d.status.desired with
+          -- the request is resolved against the nodes the EDS really targets (listed nodes fit for the
+          -- template); the controller never grows the list beyond it
+          let targeted : Int := (nodes.filter (fit d.template)).length
+          let within := match resolveIntOrPercent c.replicas targeted with
             | some k => decide ((cs.nodes.length : Int) ≤ max k oldNodes.length)
-            | none => true)
+            | none => true
+          let fs := spec fs "C04.list-growth" within
+          spec fs "C15.count-vs-targeted" within
         | _, _ => fs
       fs
     | _, _ => fs
@@ -863,6 +869,63 @@ structure StepJ where
   out : Json
   deriving FromJson
 
+/-! ### metric families (C20 gauges) -/
+structure SampleJ where
+  family : String
+  value : Int
+  keys : List String
+  values : List String
+  frac : Bool
+  deriving FromJson
+
+def sampleStr (f : String) (v : Int) (ls : List (String × String)) : String :=
+  s!"{f}={v}" ++ "{" ++ ",".intercalate (ls.map (fun p => p.1 ++ "=" ++ p.2)) ++ "}"
+
+def compareSamples (fs : Findings) (what : String) (impl : List SampleJ) (model : List Sample) : Findings :=
+  let implS := impl.filter (fun s => s.family != "eds_created" && s.family != "ers_created")
+  let fs := diff fs s!"{what}.families" (implS.map (·.family)) (model.map (·.family))
+  let fs := diff fs s!"{what}.samples" (implS.map (fun s => sampleStr s.family s.value (s.keys.zip s.values)))
+              (model.map (fun s => sampleStr s.family s.value s.labels))
+  let fs := spec fs s!"C20.{what}-label-arity" (impl.all (fun s => s.keys.length == s.values.length))
+  spec fs s!"C20.{what}-integral" (impl.all (fun s => !s.frac))
+
+def gauge (impl : List SampleJ) (family : String) : Option Int :=
+  (impl.find? (fun s => s.family == family)).map (·.value)
+
+def hMetrics (inp out : Json) : Except String Findings := do
+  let d : EDS ← get inp "eds"
+  let e : ERS ← get inp "ers"
+  let pn : Bool ← get out "panic"
+  let es : List SampleJ ← get out "eds"
+  let rs : List SampleJ ← get out "ers"
+  let fs : Findings := #[]
+  let fs := diff fs "panic" pn false
+  let fs := compareSamples fs "eds" es (edsSamples d)
+  let fs := compareSamples fs "ers" rs (ersSamples e)
+  -- the property, clause by clause: each series reports the status field of the same name
+  let st := d.status
+  let fs := spec fs "C20.eds-gauges" (
+    gauge es "eds_status_desired" == some st.desired && gauge es "eds_status_current" == some st.current &&
+    gauge es "eds_status_ready" == some st.ready && gauge es "eds_status_available" == some st.available &&
+    gauge es "eds_status_uptodate" == some st.upToDate && gauge es "eds_status_ignored_unresponsive_nodes" == some st.ignored &&
+    gauge es "eds_status_canary_activated" == some (if st.canary.isSome then 1 else 0) &&
+    gauge es "eds_status_canary_node_number" == some (match st.canary with | some c => c.nodes.length | none => 0) &&
+    gauge es "eds_status_rolling_update_paused" == some (if st.state == "RollingUpdate Paused" then 1 else 0) &&
+    gauge es "eds_status_rollout_frozen" == some (if st.state == "Rollout frozen" then 1 else 0))
+  let et := e.status
+  let fs := spec fs "C20.ers-gauges" (
+    gauge rs "ers_status_desired" == some et.desired && gauge rs "ers_status_current" == some et.current &&
+    gauge rs "ers_status_ready" == some et.ready && gauge rs "ers_status_available" == some et.available &&
+    gauge rs "ers_status_ignored_unresponsive_nodes" == some et.ignored &&
+    gauge rs "ers_status_canary_failed" == some (if isCondTrue et.conds "Canary-Failed" then 1 else 0))
+  -- label-info series: same contract as BuildInfoLabels
+  let info := fun (impl : List SampleJ) (family : String) (labels : SMap) =>
+    match impl.find? (fun s => s.family == family) with
+    | some s => Spec.C20.holds labels (s.keys.drop 2) (s.values.drop 2) && s.keys.take 2 == ["namespace", "name"]
+    | none => false
+  let fs := spec fs "C20.info-labels" (info es "eds_labels" d.labels && info rs "ers_labels" e.labels)
+  return fs
+
 def handlers : List (String × (Json → Json → Except String Findings)) := [
   ("limits", hLimits),
   ("max_creation", hMaxCreation),
@@ -882,6 +945,7 @@ def handlers : List (String × (Json → Json → Except String Findings)) := [
   ("eds_reconcile", hEdsReconcile),
   ("ers_reconcile", hErsReconcile),
   ("parallel", hParallel),
+  ("metrics", hMetrics),
   ("concurrent_reconcile", hConcurrent)
 ]
 
